@@ -391,6 +391,9 @@ NdConds == { [k |-> "shape", shape |-> <<2>>], [k |-> "shape", shape |-> <<2, 2>
 NdLeaves == { TAnn(TNd(e), <<c>>) : e \in {TInt, TFloat}, c \in NdConds } \cup { TNd(TInt), TNd(TFloat), TNd(TS("any")) }
              \cup { TAnn(TSeq("list", TInt), <<[k |-> "shape", shape |-> <<2>>]>>) }
 CondLeaves(I, CS) == { TAnn(t, <<c>>) : t \in I, c \in CS }
+                     \* a union under a condition, alone and as the element of a list (the same alias in a singular and a plural context)
+                     \cup { TAnn(TUnion(<<TInt, TFloat>>), <<[k |-> "pos"]>>), TSeq("list", TAnn(TUnion(<<TInt, TFloat>>), <<[k |-> "pos"]>>)),
+                            TAnn(TOpt(TStr), <<[k |-> "nonempty"]>>), TSeq("list", TAnn(TOpt(TStr), <<[k |-> "nonempty"]>>)) }
                      \cup { TAnn(t, <<[k |-> "nonneg"], c>>) : t \in {TInt, TFloat}, c \in CBaseNum \cup CBaseUser }
 
 (* dataclass family: one class per feature of the layout / naming / default rules (C14, C15, and the
